@@ -165,11 +165,13 @@ def run(ctx):
             continue
         fpi = FuncInfo(ci.methods["_parse"], ci.relpath, cls=ci, qual="%s._parse" % cname)
         for a in sorted(_self_attrs(ci.methods["_parse"]) - kattrs):
+            if M.resolve(cname, a) is not None:
+                continue          # a helper method of the class, not a constructor parameter
             npar += 1
             fro = LAYOUT_FROZEN.get((cname, a))
             ctx.ob("C19.R2", fpi, bool(fro), "%s._parse consults self.%s but none of the class's schema emitters does: the exported layout cannot depend on it" % (cname, a), key="layout parameter %s" % a, detail=fro)
-    if npar < 8:
-        ctx.error("C19.R2: %d parse-only parameters examined, floor 8" % npar)
+    if npar < 6:
+        ctx.error("C19.R2: %d parse-only parameters examined, floor 6" % npar)
     # Kaitai's strz stops at a single zero *byte*: a construct whose terminator / pad is a whole code unit of the encoding (2 or 4 zero bytes
     # for UTF-16/32) may be described as strz only when that unit is one byte -- the discipline NullTerminated follows above
     nz = 0
@@ -287,7 +289,7 @@ def run(ctx):
                 good = mask[0] == "bin" and mask[1] == "<<" and mask[2] == N.const(1) and mask[3][0] in ("idx", "elem") and e.loops
             ok = ok and good
     ctx.ob("C19.R2", fi, ok and seen >= 1, "FlagsEnum._emitseq lists one b1 per bit of the field, each named after the flag with mask 1<<i, from the most significant bit down", key="FlagsEnum bit order")
-    ctx.floor("C19.R2", 23 + 6 + 55 + 8)
+    ctx.floor("C19.R2", 23 + 6 + 55 + 6)
 
     # ---------------------------------------------------------------- R5: shared tables are keyed by fresh names
     fi, paths = own_method_paths(ctx, "KsyGen", "allocateId")
